@@ -29,6 +29,11 @@ type GTy struct {
 	K      string // bool i8 i16 i32 i64 int u8 u16 u32 u64 uint f64 string bytes link:iface link:cid link:cidlink node slice ptr omap struct
 	Elem   *GTy
 	Fields []GField
+	// BareSlot: this (bare nilable) type sits, without a pointer, in a slot where nil stands for absent / null: an optional
+	// struct field, or a nullable field / list element / map value.  Set by GTyOf / AnnotateGTy; not part of the token form.
+	// The printers need it: nil there is `nilb` (the model's GoVal.nilBare), elsewhere a nil slice is `nils` (an empty list)
+	// and a nil []byte is `b` (empty bytes).
+	BareSlot bool
 }
 
 type GField struct {
@@ -37,16 +42,19 @@ type GField struct {
 	Slot string // FieldSlot of a struct field ("" for union members and before AnnotateGTy): not part of the token form
 }
 
-// AnnotateGTy records, for every struct field of g bound to t, how it carries optional / nullable (GField.Slot); the printers
-// need it to tell a nil []byte that means absent / null from one that is merely empty.
-func AnnotateGTy(g *GTy, t *SType) {
-	if g.K == "ptr" {
+// AnnotateGTy records on a parsed Go type bound to t where nil stands for absent / null (GTy.BareSlot) and how every struct
+// field carries optional (GField.Slot).  nul: the slot of g is nullable.
+func AnnotateGTy(g *GTy, t *SType, nul bool) {
+	if g.K != "ptr" && nul && g.IsBareNilable() {
+		g.BareSlot = true
+	}
+	for g.K == "ptr" {
 		g = g.Elem
 	}
 	switch t.K {
 	case "list", "map":
 		if g.Elem != nil {
-			AnnotateGTy(g.Elem, t.Elem)
+			AnnotateGTy(g.Elem, t.Elem, t.Nullable)
 		}
 	case "struct":
 		for i := range g.Fields {
@@ -55,15 +63,20 @@ func AnnotateGTy(g *GTy, t *SType) {
 			}
 			f, fg := t.Fields[i], g.Fields[i].T
 			g.Fields[i].Slot = FieldSlot(fg, f.Opt, f.Nullable)
-			if g.Fields[i].Slot == "optptr" {
-				fg = fg.Elem
+			switch g.Fields[i].Slot {
+			case "optptr":
+				AnnotateGTy(fg.Elem, f.T, f.Nullable)
+			case "optbare":
+				fg.BareSlot = true
+				AnnotateGTy(fg, f.T, false)
+			default:
+				AnnotateGTy(fg, f.T, f.Nullable)
 			}
-			AnnotateGTy(fg, f.T)
 		}
 	case "union":
 		for i := range g.Fields {
 			if i < len(t.Members) && g.Fields[i].T.K == "ptr" {
-				AnnotateGTy(g.Fields[i].T.Elem, t.Members[i].T)
+				AnnotateGTy(g.Fields[i].T.Elem, t.Members[i].T, false)
 			}
 		}
 	}
@@ -226,9 +239,9 @@ func (g *GTy) IsBareNilable() bool {
 	return false
 }
 
-// FieldSlot classifies how a struct field of Go type g carries optional / nullable (the model's GoBind.fslot):
-// "value" (not optional: a value slot, nullable iff the field is), "optptr" (optional behind a pointer), "optbare" (optional,
-// bound to a bare nilable type), "nulbare" (nullable, bound to a bare nilable type), "bad".
+// FieldSlot classifies how a struct field of Go type g carries optional (the model's GoBind.fslot): "value" (not optional:
+// a value slot, nullable iff the field is), "optptr" (optional behind a pointer; what it points to is the value slot),
+// "optbare" (optional, not nullable, bound to a bare nilable type), "bad".
 func FieldSlot(g *GTy, opt, nullable bool) string {
 	switch {
 	case opt && g.K == "ptr":
@@ -237,8 +250,6 @@ func FieldSlot(g *GTy, opt, nullable bool) string {
 		return "optbare"
 	case opt:
 		return "bad"
-	case nullable && g.IsBareNilable():
-		return "nulbare"
 	}
 	return "value"
 }
@@ -314,6 +325,9 @@ func gtyOfBase(rt reflect.Type, t *SType) (*GTy, error) {
 				var err error
 				switch {
 				case f.Opt && ft.Kind() == reflect.Ptr:
+					if f.Nullable && ft.Elem().Kind() != reflect.Ptr {
+						return nil, fmt.Errorf("optional nullable field %s is not a double pointer: %s", f.Name, ft)
+					}
 					e, err = GTyOf(ft.Elem(), f.T, f.Nullable)
 					e = &GTy{K: "ptr", Elem: e}
 				case f.Opt:
@@ -324,10 +338,8 @@ func gtyOfBase(rt reflect.Type, t *SType) (*GTy, error) {
 					if err == nil && !e.IsBareNilable() {
 						return nil, fmt.Errorf("optional field %s is neither a pointer nor nilable: %s", f.Name, ft)
 					}
-				case f.Nullable && ft.Kind() != reflect.Ptr:
-					e, err = gtyOfBase(ft, f.T)
-					if err == nil && !e.IsBareNilable() {
-						return nil, fmt.Errorf("nullable field %s is neither a pointer nor nilable: %s", f.Name, ft)
+					if err == nil {
+						e.BareSlot = true
 					}
 				default:
 					e, err = GTyOf(ft, f.T, f.Nullable)
@@ -361,19 +373,30 @@ func gtyOfBase(rt reflect.Type, t *SType) (*GTy, error) {
 
 // GTyOf reads the Go type rt bound to schema type t in a value slot (a list element, a map value, a union member behind
 // its pointer, a struct field once FieldSlot is dealt with) that is nullable iff nul, back into the model's form: a
-// nullable slot is a pointer; a slot that is not nullable is the type or ONE pointer to it.
+// nullable slot is a pointer or a bare nilable type; and every slot may have ONE pointer more than it needs.
 func GTyOf(rt reflect.Type, t *SType, nul bool) (*GTy, error) {
-	if rt.Kind() == reflect.Ptr {
-		e, err := gtyOfBase(rt.Elem(), t)
-		if err != nil {
-			return nil, err
+	n := 0
+	for rt.Kind() == reflect.Ptr {
+		rt = rt.Elem()
+		n++
+	}
+	e, err := gtyOfBase(rt, t)
+	if err != nil {
+		return nil, err
+	}
+	switch {
+	case nul && n == 0:
+		if !e.IsBareNilable() {
+			return nil, fmt.Errorf("nullable slot of %s is neither a pointer nor nilable: %s", t.K, rt)
 		}
-		return &GTy{K: "ptr", Elem: e}, nil
+		e.BareSlot = true
+	case nul && n > 2, !nul && n > 1:
+		return nil, fmt.Errorf("too many pointers for a slot of schema kind %s", t.K)
 	}
-	if nul {
-		return nil, fmt.Errorf("nullable slot of %s is not a pointer: %s", t.K, rt)
+	for ; n > 0; n-- {
+		e = &GTy{K: "ptr", Elem: e}
 	}
-	return gtyOfBase(rt, t)
+	return e, nil
 }
 
 // GoKinds lists the Go kinds occurring in the type (distribution).
@@ -456,10 +479,31 @@ func FillGo(r *Rand, rv reflect.Value, g *GTy, t *SType, nul, safe, bigUint bool
 		p := reflect.New(rv.Type().Elem())
 		FillGo(r, p.Elem(), g.Elem, t, false, safe, bigUint, st)
 		rv.Set(p)
-		if nul {
+		switch {
+		case nul && g.Elem.K == "ptr":
+			st["nullable:double-pointer:"+t.K]++
+		case nul:
 			st["nullable:non-nil-pointer"]++
-		} else {
+		default:
 			st["plain-slot:pointer:"+t.K]++
+		}
+		return
+	}
+	if nul {
+		// a nullable slot bound to a bare nilable type: nil is null
+		if r.Chance(1, 4) {
+			rv.Set(reflect.Zero(rv.Type()))
+			st["nullable:bare-nil:"+g.K]++
+			return
+		}
+		FillGo(r, rv, g, t, false, safe, bigUint, st)
+		if rv.IsNil() { // present: an empty, non-nil slice / []byte
+			rv.Set(reflect.MakeSlice(rv.Type(), 0, 0))
+		}
+		if rv.Kind() == reflect.Slice && rv.Len() == 0 {
+			st["nullable:bare-present-empty:"+g.K]++
+		} else {
+			st["nullable:bare-present:"+g.K]++
 		}
 		return
 	}
@@ -599,12 +643,7 @@ func FillGo(r *Rand, rv reflect.Value, g *GTy, t *SType, nul, safe, bigUint bool
 				FillGo(r, p.Elem(), fg.Elem, f.T, f.Nullable, inner, bigUint, st)
 				fv.Set(p)
 				st["optional:non-nil-pointer"]++
-			case "optbare", "nulbare":
-				if slot == "nulbare" && r.Chance(1, 4) {
-					fv.Set(reflect.Zero(fv.Type()))
-					st["nullable:bare-nil:"+fg.K]++
-					return
-				}
+			case "optbare":
 				FillGo(r, fv, fg, f.T, false, inner, bigUint, st)
 				if fv.IsNil() { // present: an empty, non-nil slice / []byte
 					fv.Set(reflect.MakeSlice(fv.Type(), 0, 0))
@@ -666,7 +705,12 @@ func WalkGo(rv reflect.Value, g *GTy, t *SType, nul bool) (Val, error) {
 		return WalkGo(rv.Elem(), g.Elem, t, false)
 	}
 	if nul {
-		return Val{}, fmt.Errorf("nullable slot holds a %s", rv.Kind())
+		if !g.IsBareNilable() {
+			return Val{}, fmt.Errorf("nullable slot holds a %s", rv.Kind())
+		}
+		if rv.IsNil() {
+			return Null(), nil
+		}
 	}
 	switch t.K {
 	case "bool":
@@ -749,11 +793,6 @@ func WalkGo(rv reflect.Value, g *GTy, t *SType, nul bool) (Val, error) {
 					out.M = append(out.M, KV{[]byte(f.Name), Val{K: 'a'}})
 					continue
 				}
-			case "nulbare":
-				if fv.IsNil() {
-					out.M = append(out.M, KV{[]byte(f.Name), Null()})
-					continue
-				}
 				nullable = false
 			case "bad":
 				return Val{}, fmt.Errorf("optional field %s is neither a pointer nor nilable", f.Name)
@@ -792,6 +831,10 @@ func GoValTokens(rv reflect.Value, g *GTy, sortKeys bool) string {
 }
 
 func writeGoVal(sb *strings.Builder, rv reflect.Value, g *GTy, sortKeys bool) {
+	if g.BareSlot && g.IsBareNilable() && rv.IsNil() {
+		sb.WriteString("nilb ") // nil where nil stands for absent / null
+		return
+	}
 	switch g.K {
 	case "bool":
 		if rv.Bool() {
@@ -812,12 +855,12 @@ func writeGoVal(sb *strings.Builder, rv reflect.Value, g *GTy, sortKeys bool) {
 		case cidlink.Link:
 			sb.WriteString("l" + hex.EncodeToString(x.Cid.Bytes()) + " ")
 		default:
-			sb.WriteString("nili ")
+			sb.WriteString("nilb ")
 		}
 	case "node":
 		n, _ := rv.Interface().(datamodel.Node)
 		if n == nil {
-			sb.WriteString("nili ")
+			sb.WriteString("nilb ")
 			break
 		}
 		v, err := ReadNode(n)
@@ -849,10 +892,6 @@ func writeGoVal(sb *strings.Builder, rv reflect.Value, g *GTy, sortKeys bool) {
 	case "struct":
 		sb.WriteString("( ")
 		for i := range g.Fields {
-			if f := g.Fields[i]; (f.Slot == "optbare" || f.Slot == "nulbare") && f.T.K == "bytes" && rv.Field(i).IsNil() {
-				sb.WriteString("nils ") // a nil []byte that means absent / null (elsewhere nil and empty []byte are the same data)
-				continue
-			}
 			writeGoVal(sb, rv.Field(i), g.Fields[i].T, sortKeys)
 		}
 		sb.WriteString(") ")
@@ -921,6 +960,10 @@ func ParseGoVal(toks []string, rv reflect.Value, g *GTy) ([]string, error) {
 		return nil, fmt.Errorf("empty go value")
 	}
 	t, rest := toks[0], toks[1:]
+	if t == "nilb" && g.IsBareNilable() {
+		rv.Set(reflect.Zero(rv.Type()))
+		return rest, nil
+	}
 	bad := func() ([]string, error) { return nil, fmt.Errorf("go value token %q does not fit go type %s", t, g.K) }
 	switch g.K {
 	case "bool":
@@ -940,10 +983,6 @@ func ParseGoVal(toks []string, rv reflect.Value, g *GTy) ([]string, error) {
 		rv.SetFloat(math.Float64frombits(u))
 		return rest, nil
 	case "string", "bytes", "link:iface", "link:cid", "link:cidlink":
-		if (t == "nils" && g.K == "bytes") || (t == "nili" && g.K == "link:iface") {
-			rv.Set(reflect.Zero(rv.Type()))
-			return rest, nil
-		}
 		want := map[string]byte{"string": 's', "bytes": 'b'}[g.K]
 		if want == 0 {
 			want = 'l'
@@ -973,10 +1012,6 @@ func ParseGoVal(toks []string, rv reflect.Value, g *GTy) ([]string, error) {
 		}
 		return rest, nil
 	case "node":
-		if t == "nili" {
-			rv.Set(reflect.Zero(rv.Type()))
-			return rest, nil
-		}
 		if t != "N" {
 			return bad()
 		}
@@ -1131,15 +1166,17 @@ func ParseGoVal(toks []string, rv reflect.Value, g *GTy) ([]string, error) {
 	return bad()
 }
 
-// NormGo returns a fresh copy of rv with what Unwrap∘build normalises: an empty slice is nil, empty Keys is nil,
-// Values is non-nil and holds exactly the listed keys.  (Written against reflect only; the model's `GoVal.norm`.)
+// NormGo returns a fresh copy of rv with what Unwrap∘build normalises: a slice is non-nil (also when empty), empty Keys is
+// nil, Values is non-nil and holds exactly the listed keys, []byte is non-nil; nil where nil stands for absent / null stays
+// nil.  (Written against reflect only; the model's `GoVal.norm`.)
 func NormGo(rv reflect.Value, g *GTy) reflect.Value {
 	out := reflect.New(rv.Type()).Elem()
+	if g.BareSlot && g.IsBareNilable() && rv.IsNil() {
+		return out // nil where nil stands for absent / null: it stays nil
+	}
 	switch g.K {
 	case "slice":
-		if rv.Len() == 0 {
-			return out // nil
-		}
+		// a list that has been begun is a non-nil slice, also when it is empty
 		s := reflect.MakeSlice(rv.Type(), rv.Len(), rv.Len())
 		for i := 0; i < rv.Len(); i++ {
 			s.Index(i).Set(NormGo(rv.Index(i), g.Elem))
@@ -1154,9 +1191,6 @@ func NormGo(rv reflect.Value, g *GTy) reflect.Value {
 		out.Set(p)
 	case "struct":
 		for i := range g.Fields {
-			if f := g.Fields[i]; (f.Slot == "optbare" || f.Slot == "nulbare") && rv.Field(i).IsNil() {
-				continue // nil in a bare nilable optional / nullable field is absent / null: it stays nil
-			}
 			out.Field(i).Set(NormGo(rv.Field(i), g.Fields[i].T))
 		}
 	case "omap":
@@ -1222,6 +1256,9 @@ func BreakGo(r *Rand, rv reflect.Value, g *GTy, t *SType, nul bool) string {
 			walk(rv.Elem(), g.Elem, t, false)
 			return
 		}
+		if nul && rv.IsNil() {
+			return // null in a bare nilable slot
+		}
 		switch t.K {
 		case "enum":
 			if g.K != "string" {
@@ -1251,7 +1288,7 @@ func BreakGo(r *Rand, rv reflect.Value, g *GTy, t *SType, nul bool) string {
 						continue
 					}
 					fv, fg = fv.Elem(), fg.Elem
-				case "optbare", "nulbare":
+				case "optbare":
 					if fv.IsNil() {
 						continue
 					}
